@@ -229,3 +229,5 @@ func runC01(c c01Case) *vlib.Outcome {
 func TestC01(t *testing.T) {
 	vlib.Check(t, "C01", genC01, runC01)
 }
+
+func FuzzC01(f *testing.F) { vlib.Fuzz(f, "C01", genC01, runC01) }
